@@ -148,9 +148,8 @@ def run_schedule(ctx, racers, choices, rng, bound=None):
            'labels': [[a, lbl] for a, lbl in sched.labels][-80:],
            'deliveries': [dict(g) for g in got]}
     if sched.aborted:
-        wit['aborted'] = sched.aborted
-        ctx.violation(None, 'emit race: schedule did not complete: %s' %
-                      sched.aborted, wit)
+        SC.report_abort(ctx, sched, wit, 'emit race: schedule did not '
+                        'complete')
         return trace, 'aborted'
     if undecodable:
         # the frames of two multi-frame (binary) packets sent by different
@@ -238,8 +237,8 @@ def run_self_race(ctx, racers, choices, rng, bound=None):
            'choices': [c for _, c in trace],
            'labels': [[a, lbl] for a, lbl in sched.labels][-80:]}
     if sched.aborted:
-        ctx.violation(None, 'room-operation race: schedule did not '
-                      'complete: %s' % sched.aborted, wit)
+        SC.report_abort(ctx, sched, wit, 'room-operation race: schedule did '
+                        'not complete')
         return trace
     errs = list(sched.errors) + w.d.errors()
     if errs:
